@@ -618,6 +618,18 @@ func init() {
 		})
 		reg(T+".Len", func(fr *frame, a []value) value { b := buf(a[0]); return len(b.bs) - b.off })
 	}
+	for _, T := range []string{"(*bytes.Buffer)", "(*strings.Builder)"} {
+		reg(T+".Grow", func(fr *frame, a []value) value { return nil })
+		reg(T+".Cap", func(fr *frame, a []value) value { b := buf(a[0]); return len(b.bs) - b.off })
+		reg(T+".Reset", func(fr *frame, a []value) value { b := buf(a[0]); b.bs, b.off = nil, 0; return nil })
+		reg(T+".WriteRune", func(fr *frame, a []value) value {
+			b := buf(a[0])
+			s := strBytes(runeToStr(a[1]))
+			b.bs = append(b.bs, s...)
+			return tuple{len(s), nilError()}
+		})
+	}
+	reg("(*strings.Builder).copyCheck", func(fr *frame, a []value) value { return nil })
 	reg("(*bytes.Buffer).Bytes", func(fr *frame, a []value) value {
 		b := buf(a[0])
 		return append([]value(nil), b.bs[b.off:]...)
